@@ -499,6 +499,7 @@ def reload_scenario(cls, phase, hups=1, bind="unix", new_workers=3, d=1.6, two_b
             later = req[-2:]
         elif phase == "app":
             c.send(R.Client.request(d=d))
+            srv.wait_started(1, 10)          # the phase is "the application is running", not "the request has been sent"
         elif phase == "resp":
             c.send(R.Client.request(w=d))
             c.read_until(lambda b: b"marker=" in b, time.time() + 10)
